@@ -250,5 +250,25 @@ def run(c, facts, tier):
         m = re.match(r"self∈Expression::(\w+)", key)
         if m and not row["outcome"].startswith("panic"):
             c.ob("C12.early", "<Expression as TargetScheme>::compile", m.group(1), row["outcome"] == "sub" and len(row["tokens"]) == 1, "Expression::%s delegates to its payload's compile and returns its result (%s)" % (m.group(1), row["outcome"]), nontrivial=False)
+    # C12.early (top): what compile() hands to the code generator is the whole input expression — itself, or wrapped with
+    # the implicit print — never a simplified, folded or filtered copy from which an unsupported construct could be missing
+    from .. import toplevel, emit as _emit
+
+    T = toplevel.summary(facts)
+    WRAP = "Expression::Operator(Operator::And(@0,Expression::Action(Action::DefaultPrint)))"
+    tg = set()
+    for p_ in T["paths"]:
+        for c_ in p_["calls"]:
+            if c_["method"] == "compile":
+                tg.add(_emit.canon(c_["recv"]))
+    unk = sorted({u for p_ in T["paths"] for u in p_["unknown"]})
+    c.ob(
+        "C12.early",
+        "compile",
+        "the expression compiled is the whole input (possibly wrapped with the implicit print)",
+        bool(tg) and tg <= {"@0", WRAP} and not unk,
+        "compile() hands %s to the code generator%s; anything else (a folded, simplified or filtered tree) may have lost the unsupported construct the user wrote" % (sorted(tg), ("; constructs not understood: %s" % unk[:2]) if unk else ""),
+        witness="-false -a -nouser" if not (tg <= {"@0", WRAP}) else None,
+    )
     c.floor("variants partitioned", total, 38 + 12 + 37 + 37 + 1 + 11)
     c.control("C12.no-placeholder", bool(PLACEHOLDER_WORDS.search("( UNIMPLEMENTED )")), "fixture `(UNIMPLEMENTED)` is recognised as placeholder text")
